@@ -71,6 +71,7 @@ func C19() *engine.Scenario {
 }
 
 type c19Shared struct {
+	zero   *ordered.MapSA // a map nobody ever wrote to
 	m, m2  *ordered.MapSA
 	pl     *pipeline.Pipeline
 	signed []*pipeline.CommandStep
@@ -351,6 +352,11 @@ func (t *c19Task) run(op c19Op, sh *c19Shared) (res string) {
 		return fmt.Sprintf("sh.unmarshal %s | %s %v", hashBytes(b), b2, items)
 	case "sh.get":
 		k := fmt.Sprintf("s%d", op.arg%8)
+		// (also on a shared map that was never written to: new(Map), the state of an `env: {}` block)
+		zv, zok := sh.zero.Get(k)
+		if zok || zv != nil || sh.zero.Contains(k) || sh.zero.Len() != 0 {
+			return fmt.Sprintf("SHARED-STATE: lookups on a never-written map answer %v,%v", zv, zok)
+		}
 		v, ok := sh.m.Get(k)
 		return fmt.Sprintf("sh.get %s=%v,%v contains=%v len=%d zero=%v", k, v, ok, sh.m.Contains(k), sh.m.Len(), sh.m.IsZero())
 	case "sh.range":
@@ -533,6 +539,7 @@ func runC19(c *engine.Ctx) {
 		if tomb1 {
 			sh.m.Delete("s1")
 		}
+		sh.zero = new(ordered.MapSA)
 		sh.m2 = ordered.NewMap[string, any](0)
 		sh.m.Range(func(k string, v any) error { sh.m2.Set(k, v); return nil })
 		if cold {
@@ -589,7 +596,7 @@ func runC19(c *engine.Ctx) {
 		// the caller's key objects are observed too (their JSON form: every field a key carries)
 		kpub, _ := json.Marshal(x.kp.pub)
 		kpriv, _ := json.Marshal(x.kp.priv)
-		return stateDump.Sdump([]any{x.m, x.m2, x.plugins, x.penv}) + fmt.Sprintf(" keys=%016x/%016x ", tape.HashString(string(kpub)), tape.HashString(string(kpriv))) + hashBytes([]byte(stateDump.Sdump(x.pl))) + hashBytes([]byte(stateDump.Sdump(x.wrapped)))
+		return stateDump.Sdump([]any{x.m, x.m2, x.zero, x.plugins, x.penv}) + fmt.Sprintf(" keys=%016x/%016x ", tape.HashString(string(kpub)), tape.HashString(string(kpriv))) + hashBytes([]byte(stateDump.Sdump(x.pl))) + hashBytes([]byte(stateDump.Sdump(x.wrapped)))
 	}
 
 	// ---- tasks and their programs
